@@ -49,10 +49,10 @@ ROUTES = ["StopgapMotl(df).write_out", "StopgapMotl(StopgapMotl).write_out", "Mo
 
 def plan(tier):
     if tier == "quick":
-        return dict(n_cases=len(CLASSES) * 4 * 7, shards=4, classes=CLASSES, timeout_s=600,
-                    min_evals={"sg_export": 800, "sg_import": 1300, "write_out_file": 450, "star_fields": 450,
-                               "star_halfset_idx": 450, "update_coord": 700, "star_reload": 900, "inmem_roundtrip": 350,
-                               "converters": 550})
+        return dict(n_cases=len(CLASSES) * 4 * 6, shards=4, classes=CLASSES, timeout_s=600,
+                    min_evals={"sg_export": 700, "sg_import": 1100, "write_out_file": 400, "star_fields": 400,
+                               "star_halfset_idx": 400, "update_coord": 600, "star_reload": 800, "inmem_roundtrip": 300,
+                               "converters": 450})
     return dict(n_cases=len(CLASSES) * 4 * 120, shards=16, classes=CLASSES, timeout_s=3000,
                 min_evals={"sg_export": 14000, "sg_import": 25000, "write_out_file": 7500, "star_fields": 7500,
                            "star_halfset_idx": 7500, "update_coord": 12000, "star_reload": 16000, "inmem_roundtrip": 6500,
